@@ -28,6 +28,13 @@ MSGS = [
     dict(flags=[], idate='31-Dec-2019 12:00:00 +0000', sent='Tue, 31 Dec 2019 12:00:00 +0000',
          frm='dave@example.com', to='eve@example.net', cc='', bcc='', subject='Quick question', xh='five',
          body='fox fox fox\r\n' * 40),
+    # dates near midnight with a zone offset: RFC 3501 compares the date as written, disregarding time and timezone
+    dict(flags=[b'\\Seen'], idate='02-Mar-2020 00:30:00 +0200', sent='Sat, 15 Feb 2020 23:30:00 -0500',
+         frm='frank@example.com', to='bob@example.com', cc='', bcc='', subject='zones', xh='six',
+         body='east of greenwich\r\n'),
+    dict(flags=[b'\\Flagged'], idate='14-Feb-2020 23:45:00 -0800', sent='Mon, 02 Mar 2020 00:15:00 +0300',
+         frm='grace@example.org', to='eve@example.net', cc='', bcc='', subject='zones again', xh='',
+         body='west of greenwich\r\n'),
 ]
 _MON = dict(Jan=1, Feb=2, Mar=3, Apr=4, May=5, Jun=6, Jul=7, Aug=8, Sep=9, Oct=10, Nov=11, Dec=12)
 
